@@ -131,7 +131,75 @@ def scan() -> list[str]:
     return sorted(out)
 
 
+def _lean_f(f, aidx) -> str:
+    k = f[0]
+    if k == "tt":
+        return ".tt"
+    if k == "ff":
+        return ".ff"
+    if k == "atom":
+        return f"(.atom {aidx[f[1]]})"
+    if k == "not":
+        return f"(.not {_lean_f(f[1], aidx)})"
+    parts = [_lean_f(x, aidx) for x in f[1]]
+    out = parts[-1]
+    for x in reversed(parts[:-1]):
+        out = f"(.{k} {x} {out})"
+    return out
+
+
+def generate_bindings() -> None:
+    """the binding table of the running code -> lean/Ptk/Gen/C05Bindings.lean"""
+    head = "import Ptk.Model.C05Skel\nnamespace Ptk.Gen.C05\nopen Ptk.C05.Skel\n\n"
+    try:
+        import c05_skel as S
+
+        rows, atoms, same = S.canonical_app()
+        an, hn, kn = S.table_names(rows, atoms)
+        h = S.table_hash(rows, atoms)
+        writes = S.canonical_writes()
+    except Exception as e:  # the tree is broken: keep the library compilable, the pins in Props/C05Skel fail
+        rows, an, hn, kn, same, h, writes = [], [], [], [], False, "broken:" + type(e).__name__, {}
+    aidx = {n: i for i, n in enumerate(an)}
+    hidx = {n: i for i, n in enumerate(hn)}
+    kidx = {n: i for i, n in enumerate(kn)}
+
+    def kid(k):
+        return str(ord(k)) if len(k) == 1 else f"namedBase + {kidx[k]}"
+
+    def named(k):
+        return f"namedBase + {kidx[k]}" if k in kidx else "namedBase + 999999"
+
+    body = head
+    body += "/-- the `Condition`s the binding filters are built from (module:qualified name), sorted -/\n"
+    body += "def atomNames : List String := [\n" + ",\n".join("  " + G.lstr(n) for n in an) + "]\n\n"
+    body += "/-- the handlers of the bindings (labels), sorted -/\n"
+    body += "def handlerNames : List String := [\n" + ",\n".join("  " + G.lstr(n) for n in hn) + "]\n\n"
+    body += "/-- the skeleton-relevant statements of each handler body (c05_skel.handler_writes), same order -/\n"
+    body += "def handlerWrites : List String := [\n" + ",\n".join("  " + G.lstr(writes.get(n, "?")) for n in hn) + "]\n\n"
+    body += "/-- the named keys of the bindings, sorted; key id = namedBase + index -/\n"
+    body += "def keyNames : List String := [\n" + ",\n".join("  " + G.lstr(n) for n in kn) + "]\n\n"
+    body += f"def anyKey : Nat := {named('<any>')}\n"
+    body += f"def enterKey : Nat := {named('c-m')}\n"
+    body += f"def escapeKey : Nat := {named('escape')}\n"
+    body += f"def ctrlOKey : Nat := {named('c-o')}\n"
+    body += f"def ctrlVKey : Nat := {named('c-v')}\n\n"
+    body += "/-- the table is the same whichever buffer has the focus -/\n"
+    body += f"def sameWhenSearching : Bool := {'true' if same else 'false'}\n\n"
+    body += f"def tableHash : String := {G.lstr(h)}\n\n"
+    body += "/-- every Binding of the key processor of a PromptSession application, in matching order:\n"
+    body += "    keys, filter, eager, handler (index in `handlerNames`) -/\n"
+    body += "def bindings : List Binding := [\n"
+    lines = []
+    for r in rows:
+        ks = "[" + ", ".join(kid(k) for k in r["keys"]) + "]"
+        lines.append(f"  ⟨{ks}, {_lean_f(r['filter'], aidx)}, {_lean_f(r['eager'], aidx)}, {hidx[r['handler']]}⟩")
+    body += ",\n".join(lines) + "]\n\nend Ptk.Gen.C05\n"
+    G.write("C05Bindings.lean", body)
+
+
 def generate() -> None:
+    generate_bindings()
     sites = scan()
     body = "namespace Ptk.Gen.C05\n\n"
     body += "/-- every write to Buffer state outside buffer.py that does not go through the Buffer API\n"
